@@ -455,6 +455,18 @@ def run(ctx):
     for q, f in index.funcs.items():
         if f.outer is scan:
             helpers[f.node.name] = summarize_helper(f.node)
+    # the emitting helper may have been moved to module level: a function of the same module that cst_scan calls by
+    # its bare name and whose body is a straight line of appends / clears on its parameters is summarised the same way
+    for n_ in iter_own(scan.node):
+        if isinstance(n_, ast.Call) and isinstance(n_.func, ast.Name) and n_.func.id not in helpers:
+            h_ = index.funcs.get(index.callee(scan.mod, n_, scan) or "")
+            if h_ is not None and h_.mod is scan.mod and h_.outer is None and h_ is not scan:
+                try:
+                    summ_ = summarize_helper(h_.node)
+                except AnalysisError:
+                    continue  # not an emitting helper (a predicate over strings, ...): calls are judged as ordinary calls
+                if summ_:
+                    helpers[n_.func.id] = summ_
     ctx.need(scan.params[:2] == ["scanned", "stack"], "cst_scan(scanned, stack) signature changed")
     buffers = {"stack"} | {
         t.id
@@ -785,6 +797,18 @@ def _lines(ctx):
         isinstance(n, ast.Call) and norm(n.func) in ("deque", "list", "tuple") and n.args and n.args[0] in maps
         for n in iter_own(parser.node)
     )
+    # a third spelling: the partial bound to a local once, then applied in the loop — `p = partial(cst_parse_one_node,
+    # state=S)`; `for chunk in scanned: p(chunk)`
+    bound_partials = {
+        n.targets[0].id
+        for n in iter_own(parser.node)
+        if isinstance(n, ast.Assign)
+        and len(n.targets) == 1
+        and isinstance(n.targets[0], ast.Name)
+        and norm(n.value) == "partial(cst_parse_one_node, state={})".format(sname)
+    }
+    if not maps and not direct and bound_partials:
+        direct = [c for c in iter_own(parser.node) if isinstance(c, ast.Call) and isinstance(c.func, ast.Name) and c.func.id in bound_partials and len(c.args) == 1 and not c.keywords]
     if not maps and direct:
         # the loop form: `for chunk in <scanned>: cst_parse_one_node(chunk, state=S)` — the call is an unconditional
         # top-level statement of a loop over exactly the parameter, the loop itself is unconditional, no break/continue
